@@ -170,6 +170,102 @@ Qed.
 Lemma is_prefix_refl s : is_prefix s s = true.
 Proof. induction s as [|c s IH]; [reflexivity|]. cbn. rewrite Z.eqb_refl, IH. reflexivity. Qed.
 
+(* ================================================================================================================ *)
+(*   'addr;*' : subscribe to everything, hidden topics included                                                      *)
+(* ================================================================================================================ *)
+Section SubEverythingInst.
+  Definition allparts (g : group) : list (str * Z) := parts g.
+  Definition dictS (g : group) (q : nat) := rec_of g (parts g) q.
+  Definition frameS (g : group) := map (fun tp => (fst tp, stored_of g tp)) (parts g).
+
+  Lemma fold_init_none_all g (sm : stored) (topic : str) (ps : list (str * Z)) : forall acc,
+    (forall t, In t (map fst ps) -> str_eqb t topic = false /\ ~ In t (map fst acc)) ->
+    NoDup (map fst ps) ->
+    fold_left (fun d t0 => if false then d else dset t0 (if str_eqb t0 topic then Some sm else None) d) (map fst ps) acc
+    = acc ++ rec_of g ps 0.
+  Proof.
+    induction ps as [|tp ps IH]; intros acc H Hnd; cbn [map fold_left rec_of]; [rewrite app_nil_r; reflexivity|].
+    destruct (H (fst tp) (or_introl eq_refl)) as (He & Hn). rewrite He.
+    rewrite (dset_notin (fst tp) (@None stored) acc Hn). inversion Hnd as [|? ? Hni Hnd']; subst. rewrite IH.
+    - rewrite <- app_assoc. reflexivity.
+    - intros t Ht. destruct (H t (or_intror Ht)) as (B & C). split; [exact B|].
+      rewrite map_app. cbn. intro Hc. apply in_app_iff in Hc as [Hc|[Hc|[]]]; [apply C; exact Hc|]. subst t. contradiction.
+    - exact Hnd'.
+  Qed.
+
+  Lemma init_recvd_first_all g tp ps :
+    parts g = tp :: ps -> group_wf g -> init_recvd SubEverything (stored_of g tp) (fst tp) (gtopics g) = rec_of g (parts g) 1.
+  Proof.
+    intros Ep [Hnd _]. unfold init_recvd, gtopics in *. rewrite Ep in *. cbn [map fold_left rec_of].
+    inversion Hnd as [|? ? Hni Hnd']; subst. rewrite str_eqb_refl. cbn [dset].
+    rewrite (fold_init_none_all g (stored_of g tp) (fst tp) ps [(fst tp, Some (stored_of g tp))]); [reflexivity| |exact Hnd'].
+    intros t Ht. split; [apply str_eqb_neq; intro; subst t; contradiction|]. cbn. intros [Hc|[]]. subst t. contradiction.
+  Qed.
+
+  Lemma S_pass g m : group_wf g -> In m (xmsgs allparts g) -> passesX SubEverything m = true.
+  Proof. intros _ _. reflexivity. Qed.
+
+  Lemma S_full g : group_wf g -> gall (dictS g (length (xmsgs allparts g))) = true.
+  Proof. intros _. unfold dictS, gall. apply rec_of_all_some. unfold xmsgs, allparts. rewrite app_length, map_length. lia. Qed.
+
+  Lemma S_proc g q m s fmin : group_wf g -> nth_error (xmsgs allparts g) q = Some m -> completeq dictS g q = false ->
+    cfg s = cX SubEverything -> recvd s = cur SubEverything dictS g q -> (if (q =? 0)%nat then fmin <= gid g else fmin = gid g) ->
+    exists nw s2,
+      process_msg Repaired s (w_mid m) (mk_stored 0 m) (heard_topic Repaired SubEverything (topic_of_wire (w_wtopic m))) (w_topics m) fmin
+        = Some (nw, s2) /\
+      recvd (prune s2 false (w_topics m)) = Some (dictS g (S q)).
+  Proof.
+    intros Hg Hn Hc Cf Re Hf. cbn [heard_topic]. pose proof Hg as [Hnd Hne].
+    assert (PR : forall s2, cfg s2 = cfg s -> prune s2 false (w_topics m) = s2)
+      by (intros s2 E; apply prune_suball; rewrite E, Cf; reflexivity).
+    destruct (nth_error_xmsgs allparts g q m Hn) as [(tp & Htp & ->)|[Hq ->]]; unfold allparts in *.
+    - assert (Esm : mk_stored 0 (data_msg g tp) = stored_of g tp).
+      { unfold mk_stored, stored_of, data_msg. cbn [w_pay w_mid w_wtopic]. rewrite topic_of_wire_of_topic. reflexivity. }
+      rewrite Esm. cbn [data_msg w_mid w_wtopic w_topics]. rewrite topic_of_wire_of_topic.
+      unfold process_msg. destruct q as [|q].
+      + cbn [cur recvd_new] in Re. change (0 =? 0)%nat with true in Hf. cbv iota in Hf.
+        replace (gid g <? fmin) with false by (symmetry; apply Z.ltb_ge; exact Hf). rewrite Re, Cf. cbn [sc_mode cX].
+        eexists. eexists. split; [reflexivity|]. rewrite PR by reflexivity. cbn [recvd with_recvd].
+        destruct (parts g) as [|tp0 ps] eqn:Ep; [discriminate|]. cbn in Htp. inversion Htp; subst tp0.
+        unfold dictS. rewrite (init_recvd_first_all g tp ps Ep Hg), Ep. reflexivity.
+      + cbn [cur] in Re. change (S q =? 0)%nat with false in Hf. cbv iota in Hf. subst fmin.
+        replace (gid g <? gid g) with false by (symmetry; apply Z.ltb_irrefl). rewrite Re.
+        replace (gid g =? gid g) with true by (symmetry; apply Z.eqb_refl).
+        assert (Hne' : fst tp <> []).
+        { rewrite Forall_forall in Hne. apply Hne. unfold gtopics. apply in_map. eapply nth_error_In; exact Htp. }
+        destruct (fst tp) as [|c t] eqn:Et; [contradiction|]. rewrite <- Et.
+        eexists. eexists. split; [reflexivity|]. rewrite PR by reflexivity. cbn [recvd with_recvd].
+        unfold dictS. rewrite (dset_rec_of g (parts g) (S q) tp Hnd Htp). reflexivity.
+    - assert (Hq0 : q = 0%nat /\ parts g = []).
+      { destruct q as [|q]; [split; [reflexivity|]; destruct (parts g); [reflexivity|discriminate]|].
+        exfalso. cbn [completeq] in Hc. unfold dictS, gall in Hc. rewrite rec_of_all_some in Hc by lia. discriminate. }
+      destruct Hq0 as [-> Hvp]. cbn [cur recvd_new] in Re. change (0 =? 0)%nat with true in Hf. cbv iota in Hf.
+      cbn [hb_msg w_mid w_wtopic w_topics]. unfold process_msg.
+      replace (gid g <? fmin) with false by (symmetry; apply Z.ltb_ge; exact Hf). rewrite Re, Cf. cbn [sc_mode cX].
+      eexists. eexists. split; [reflexivity|]. rewrite PR by reflexivity. cbn [recvd with_recvd].
+      unfold dictS, init_recvd, gtopics. rewrite Hvp. reflexivity.
+  Qed.
+
+  Lemma S_asm g q : group_wf g -> completeq dictS g q = true -> assemble_src (tmX SubEverything) (dictS g q) [] = Some (frameS g).
+  Proof.
+    intros [Hnd _] Hc. assert (Hge : (length (parts g) <= q)%nat).
+    { destruct q as [|q]; [discriminate|]. cbn [completeq] in Hc. unfold dictS, gall in Hc.
+      destruct (Nat.lt_ge_cases (S q) (length (parts g))) as [Hlt|Hge]; [|exact Hge].
+      rewrite (rec_of_not_all g (parts g) (S q) Hlt) in Hc. discriminate. }
+    unfold dictS. rewrite (rec_of_sat g (parts g) q Hge). cbn [tmX].
+    rewrite (assemble_src_rec_of g (parts g) [] Hnd) by (intros t _ []). reflexivity.
+  Qed.
+
+  (* 'addr;*': every published topic, hidden ones included, in publication order *)
+  Theorem edgeS_lossless gs cid ll its :
+    Forall group_wf gs -> ids_increasing MSG_ID_INITIAL_PREV gs -> EdgeG.fed SubEverything (xstream allparts gs) its ->
+    exists k, frames (snd (rrun Repaired (init_receiver cid false ll [cX SubEverything]) its)) = map (frame_ofX frameS) (firstn k gs).
+  Proof.
+    intros Hwf Hinc F.
+    exact (edgeG_lossless SubEverything allparts dictS group_wf frameS S_pass I S_full S_proc S_asm gs Hwf Hinc cid ll its F).
+  Qed.
+End SubEverythingInst.
+
 Lemma dhas_In_gen {V} n (l : list (str * V)) : dhas n l = true <-> In n (map fst l).
 Proof.
   unfold dhas. induction l as [|[k v] l IH]; cbn; [split; [discriminate|intros []]|].
